@@ -128,6 +128,15 @@ def run(ctx):
 
     rng = ctx.rng(1)
     for k in range(ctx.n(300, 3000)):
+        if k and k % 60 == 0:
+            # the cache file is regenerated under the same name with another number of rows: whatever was remembered about
+            # the old file (row count, units) must not be applied to the new one
+            Nlib = int(rng.choice([40, 97, 150, 263]))
+            lib = JokerSamples()
+            lib["P"] = (np.arange(Nlib) + 1.0) * u.day
+            lib["e"] = np.zeros(Nlib)
+            lib.write(path, overwrite=True)
+            ctx.count("cache_file_rewritten_with_other_row_count")
         nb = int(rng.choice([1, 2, 3, 5, 8, 13, 97, 120]))
         kindq = str(rng.choice(["idx-shuffled", "idx-repeats", "idx-sorted", "idx-perm-of-block", "idx-block-by-endpoints", "count", "all"]))
         via = "run_worker" if rng.random() < 0.6 else "marginal_ln_likelihood_helper"
